@@ -373,6 +373,8 @@ class BitArray(Bits):
         bs = self._create_from_bitstype(bs)
         if len(bs) == 0:
             return
+        if bs is self:
+            bs = self._copy()
         if pos < 0:
             pos += len(self)
         if pos < 0 or pos > len(self):
@@ -487,6 +489,8 @@ class BitArray(Bits):
 
     def _ror_msb0(self, bits: int, start: Optional[int] = None, end: Optional[int] = None) -> None:
         start, end = self._validate_slice(start, end)  # the _slice deals with msb0/lsb0
+        if start == end:
+            return
         bits %= (end - start)
         if not bits:
             return
@@ -512,6 +516,8 @@ class BitArray(Bits):
 
     def _rol_msb0(self, bits: int, start: Optional[int] = None, end: Optional[int] = None):
         start, end = self._validate_slice(start, end)
+        if start == end:
+            return
         bits %= (end - start)
         if bits == 0:
             return
